@@ -211,6 +211,7 @@ func newReq(host, path, remote string) *http.Request {
 }
 
 var rrPick, prefixMatch = route.Picker["rr"], route.Matcher["prefix"]
+var rndPick = route.Picker["rnd"]
 
 // ---------- redirect templates: the URL as written in the route and the pieces of the Location ----------
 type tmplT struct {
@@ -760,6 +761,92 @@ func rrCases(run *vh.Run) {
 	}
 }
 
+// ---------- F2. the random picker (default strategy) under concurrency ----------
+var rndTables = append(append([]rrTable{}, rrTables...),
+	rrTable{"weighted-100-0", "route add a rr.example/ http://a.internal:80/ weight 1\nroute add b rr.example/ http://b.internal:80/"},
+	rrTable{"weighted-1-99", "route add a rr.example/ http://a.internal:80/ weight 0.01\nroute add b rr.example/ http://b.internal:80/"})
+
+func rndCases(run *vh.Run) {
+	gc := route.NewGlobCache(16)
+	worst := 0.0
+	for _, rt := range rndTables {
+		for _, G := range []int{1, 8, 12} {
+			if G == 12 && !run.Thorough() && len(rt.name) > 9 { // the weighted tables: big ring terms
+				continue
+			}
+			tbl := mustTable(rt.text)
+			ro := rrRoute(tbl)
+			ring := ro.VerifC06Ring()
+			per := run.Scale(2500, 40000)
+			counts := make([][]int, G)
+			var panics, foreign int64
+			var pmu sync.Mutex
+			pmsgs := map[string]int{}
+			var wg sync.WaitGroup
+			startc := make(chan struct{})
+			for g := 0; g < G; g++ {
+				counts[g] = make([]int, len(ro.Targets))
+				wg.Add(1)
+				go func(g int) {
+					defer wg.Done()
+					req := newReq("rr.example", "/", "10.0.0.1:1")
+					<-startc
+					for i := 0; i < per; i++ {
+						var tg *route.Target
+						pv, where := guarded(func() { tg = tbl.Lookup(req, "", rndPick, prefixMatch, gc, false) })
+						if pv != nil {
+							atomic.AddInt64(&panics, 1)
+							pmu.Lock()
+							pmsgs[fmt.Sprintf("lookup with the random picker panicked under concurrency in %s: %v", where, pv)]++
+							pmu.Unlock()
+							continue
+						}
+						if ti := targetIndex(ro, tg); ti < 0 {
+							atomic.AddInt64(&foreign, 1)
+						} else {
+							counts[g][ti]++
+						}
+					}
+				}(g)
+			}
+			close(startc)
+			wg.Wait()
+			sum := make([]int, len(ro.Targets))
+			for g := range counts {
+				for t, c := range counts[g] {
+					sum[t] += c
+				}
+			}
+			for _, m := range vh.SortedKeys(pmsgs) {
+				run.Violation(run.NextID(), m, map[string]interface{}{"table": rt.name, "goroutines": G, "times": pmsgs[m]})
+			}
+			// share sanity: a note, not a verdict
+			slots := make([]int, len(ro.Targets))
+			for _, t := range ring {
+				if t >= 0 {
+					slots[t]++
+				}
+			}
+			for t := range sum {
+				want := float64(slots[t]) / float64(len(ring))
+				got := float64(sum[t]) / float64(G*per)
+				if d := got - want; d > worst {
+					worst = d
+				} else if -d > worst {
+					worst = -d
+				}
+			}
+			class := "rnd-conc-" + rt.name
+			if G == 1 {
+				class = "rnd-conc-control-1-goroutine"
+			}
+			run.Add(class, vh.App("CRndConc", natList(ring), strconv.Itoa(G), strconv.Itoa(per), natList(sum), strconv.Itoa(int(panics)), strconv.Itoa(int(foreign))),
+				map[string]interface{}{"table": rt.name, "ring_len": len(ring), "goroutines": G, "lookups_each": per, "picks_per_target": sum, "recovered_panics": panics, "foreign_targets": foreign})
+		}
+	}
+	run.Notes["rnd_worst_share_deviation"] = worst
+}
+
 // ---------- G. sequential lookups against the lookup model ----------
 func lookupCases(run *vh.Run) {
 	r := run.Rng
@@ -892,6 +979,7 @@ type answer struct {
 
 type stressReq struct {
 	host, path, remote string
+	rnd                bool // looked up with the random picker (the default strategy) instead of rr
 	redirect           int // index into tmpls, -1 otherwise
 	allowed            map[answer]bool
 }
@@ -913,7 +1001,11 @@ func stressTable() (string, []tmplT) {
 
 func serve(p *proxy.HTTPProxy, q *stressReq) (answer, interface{}, string) {
 	rec := httptest.NewRecorder()
-	pv, where := guarded(func() { p.ServeHTTP(rec, newReq(q.host, q.path, q.remote)) })
+	req := newReq(q.host, q.path, q.remote)
+	if q.rnd {
+		req.Header.Set("X-Verif-Pick", "rnd")
+	}
+	pv, where := guarded(func() { p.ServeHTTP(rec, req) })
 	if pv != nil {
 		return answer{}, pv, where
 	}
@@ -942,6 +1034,11 @@ func stress(run *vh.Run) {
 			&stressReq{host: "nowhere.test", path: "/fb/1", remote: "10.0.0.1:1", redirect: -1},
 			&stressReq{host: "nowhere.test", path: "/none", remote: "10.0.0.1:1", redirect: -1})
 	}
+	for g := range reqs {
+		for _, q := range reqs[g] {
+			q.rnd = g%2 == 1 // every other goroutine looks up with the random picker
+		}
+	}
 	// sequential answers on a private table and cache (a cache big enough to stay out of the way)
 	{
 		tbl := mustTable(text)
@@ -967,7 +1064,11 @@ func stress(run *vh.Run) {
 	route.SetTable(mustTable(text))
 	gc := route.NewGlobCache(4)
 	p := &proxy.HTTPProxy{Config: config.Proxy{}, Transport: stubRT{}, Lookup: func(req *http.Request) *route.Target {
-		return route.GetTable().Lookup(req, "", rrPick, prefixMatch, gc, false)
+		pick := rrPick
+		if req.Header.Get("X-Verif-Pick") == "rnd" {
+			pick = rndPick
+		}
+		return route.GetTable().Lookup(req, "", pick, prefixMatch, gc, false)
 	}}
 	dur := time.Duration(run.Scale(3, 60)) * time.Second
 	stop := make(chan struct{})
@@ -1118,6 +1219,7 @@ func main() {
 	forcedCases(run)
 	globSeqCases(run)
 	rrCases(run)
+	rndCases(run)
 	lookupCases(run)
 	globConcCases(run)
 	stress(run)
